@@ -958,6 +958,18 @@ func (r *Run) callBuiltin(g *Goroutine, name string, args []Value, call *ssa.Cal
 			if x != nil {
 				x.keys, x.vals = nil, nil
 			}
+		case SliceV:
+			if call == nil {
+				panic(engineErr("clear of a slice without static type"))
+			}
+			et := call.Args[0].Type().Underlying().(*types.Slice).Elem()
+			x = r.concreteSlice(x)
+			if x.len > 0 {
+				arr := r.sliceArr(x)
+				for i := 0; i < x.len; i++ {
+					arr.e[x.off+i] = r.zero(et)
+				}
+			}
 		default:
 			panic(engineErr("clear on %T", x))
 		}
